@@ -89,8 +89,6 @@ impl SimInit {
         if name.is_empty() {
             name = String::from("<unknown>");
         };
-        self.observers
-            .push((name.clone(), Box::new(mailbox.0.observer())));
         let scheduler = GlobalScheduler::new(self.scheduler_queue.clone(), self.time.reader());
 
         add_model(
@@ -100,6 +98,7 @@ impl SimInit {
             scheduler,
             &self.executor,
             &self.abort_signal,
+            &mut self.observers,
             &mut self.model_names,
         );
 
